@@ -8,10 +8,11 @@ import SimplicityModel.PruneIds
 The model: types of the plan (`inferM`, all nodes, root `1 → 1`), commitment and identity roots
 (`cmrs`, `ihrs`); tracker = the record of `evalT` on the elaborated term, labelled with the
 identity root (IHR) of the plan node each term node comes from; pruned plan = `prunePlan` (the
-`prune_case` table, hidden child's CMR from the original roots); types of the pruned program as
-the code computes them = `inferM` on the pruned plan with *all* nodes (the `Pruner` converts every
-node of the original DAG in one inference context), `principal=` says whether these are the
-principal types of the pruned program (`inferM` with the reachability mask); witnesses =
+`prune_case` table, hidden child's CMR from the original roots); types of the pruned program =
+`inferM` on the pruned plan with the reachability mask: the principal types of the pruned program
+on its own (what `prune` computes since it re-infers in a context of its own; `inferM` with *all*
+nodes — the constraints of the hidden branches still in force — is what it computed before, see
+`Props.C08.stale_constraints_not_principal`), so `principal=` is always `yes` here; witnesses =
 `pruneV` of the original values to the new target types; `cmr=` recomputed on the pruned plan;
 `antidos=` on the model's own run of the pruned plan: every reachable node executed and both
 sides of every remaining case taken. -/
@@ -46,8 +47,8 @@ def isCase : Node → Bool | .case _ _ => true | _ => false
 structure Pruned where
   plan : Plan
   reach : Array Bool
+  /-- principal arrows of the pruned program (`inferM` with the reachability mask) -/
   codeArrows : Array (Ty × Ty)
-  principalArrows : Array (Ty × Ty)
   /-- compact bits of the pruned witness values (reachable witness nodes) -/
   wits : List (Nat × List Bool)
   cmr : Array Nat
@@ -77,8 +78,8 @@ def prunePipeline (p : Plan) (ex : Extras) : Res :=
         | .ok (_, tr) =>
           let p1 := prunePlan tr.sides ids (fun i => cm.getD i 0) p
           let reach := reachable p1
-          match inferM ex.jetTy p1 all true, inferM ex.jetTy p1 (fun i => reach.getD i false) true, cmrs jetCmr p1 with
-          | .ok a1, .ok a2, some cm1 =>
+          match inferM ex.jetTy p1 (fun i => reach.getD i false) true, cmrs jetCmr p1 with
+          | .ok a1, some cm1 =>
             let ws := (List.range p.size).filterMap fun i =>
               if reach.getD i false && isWitness (p1.getD i .unit) then
                 (do let bits ← ex.wit i
@@ -86,18 +87,14 @@ def prunePipeline (p : Plan) (ex : Extras) : Res :=
                     let w ← pruneV v (a1.getD i (.one, .one)).2
                     pure (i, compact w)) <|> some (i, [true, false, true, false, true, false, true])  -- marks a model failure
               else none
-            .ok { plan := p1, reach := reach, codeArrows := a1, principalArrows := a2, wits := ws, cmr := cm1 }
-          | .ok _, .ok _, none => .err "bad-plan"
-          | _, _, _ => .err "model-reinference-failed"
+            .ok { plan := p1, reach := reach, codeArrows := a1, wits := ws, cmr := cm1 }
+          | .ok _, none => .err "bad-plan"
+          | _, _ => .err "model-reinference-failed"
   | .ok _, none => .err "bad-plan"
   | .typeError, _ => .err "ill-typed"
   | .occurs, _ => .err "ill-typed"
   | .badPlan, _ => .err "bad-plan"
   | .fuel, _ => .err "model-fuel"
-
-def Pruned.principal (q : Pruned) : Bool :=
-  (List.range q.plan.size).all fun i =>
-    !(q.reach.getD i false) || (q.codeArrows.getD i (.one, .one) == q.principalArrows.getD i (.one, .one))
 
 /-- the anti-DoS conditions on the model's own run of the pruned plan.  Identities are the
 identity roots of the *pruned* program (libsimplicity evaluates the decoded DAG, in which nodes
@@ -136,10 +133,8 @@ def showPruned (q : Pruned) (ex : Extras) : String :=
         base ++ ":" ++ Drv.showBits (((q.wits.find? (·.1 = i)).map (·.2)).getD [])
       else base
     else "-"
-  let pr := q.principal
   "ok " ++ " ".intercalate toks ++ " cmr=" ++ hex32 (q.cmr.getD (q.plan.size - 1) 0) ++
-    " principal=" ++ (if pr then "yes" else "no") ++
-    " antidos=" ++ (if pr then q.antiDos ex else "n/a")
+    " principal=yes antidos=" ++ q.antiDos ex
 
 def pruneOp (rest : List String) : String :=
   match parsePlan rest with
